@@ -189,7 +189,7 @@ def extract_reader_model(ctx):
         return None
     # reflect block
     ROWS, COLS = rows_l[0], cols_l[0]
-    refl = [e for e in events(fa, 'store_sub') if e.base == res and (V('reflect'), True) in e.guards]
+    refl = [e for e in events(fa, 'store_sub') if e.base == res and e.under(V('reflect'))]
     dup = None
     swap = {}
     for e in refl:
@@ -227,7 +227,7 @@ def extract_reader_model(ctx):
     ctx.check(need <= set(swap), R, 'reflect-all-columns', w, found=sorted(T.show(k) for k in swap),
               expected='bin1_id, bin2_id, field (and __index when requested)')
     idxs = [e for e in refl if e.key == C('__index')]
-    ctx.check(bool(idxs) and all((V('return_index'), True) in e.guards for e in idxs), R, 'reflect-index', w,
+    ctx.check(bool(idxs) and all(e.under(V('return_index')) for e in idxs), R, 'reflect-index', w,
               found=len(idxs), expected='__index duplicated when return_index')
     # all reflect stores only under `reflect` and non-empty result
     model = {
@@ -616,12 +616,12 @@ def plumbing(ctx):
     if n < 5:
         ctx.unrec(R, 'api.matrix.engines', ctx.where(fm), found=n, reason='expected five engine constructions')
     # pixel output uses the direct engine, index iff not ignore_index
-    px = [e for e in calls(fm, f'{RQ}.DirectRangeQuery2D') if (V('as_pixels'), True) in e.guards]
+    px = [e for e in calls(fm, f'{RQ}.DirectRangeQuery2D') if e.under(V('as_pixels'))]
     ctx.check(len(px) == 1 and T.get_kw(px[0].term, 'return_index') == T.not_(V('ignore_index')), R, 'api.matrix.pixels-engine',
               ctx.where(fm, px[0] if px else None), found=px[0].term if px else None,
               expected='DirectRangeQuery2D(..., return_index=not ignore_index) under as_pixels',
               reason='pixel output lists exactly the stored records')
-    fl = [e for e in calls(fm, f'{RQ}.FillLowerRangeQuery2D') if (V('as_pixels'), True) in e.guards]
+    fl = [e for e in calls(fm, f'{RQ}.FillLowerRangeQuery2D') if e.under(V('as_pixels'))]
     ctx.check(not fl, R, 'api.matrix.pixels-no-fill', ctx.where(fm), found=len(fl), expected=0)
 
 
@@ -674,8 +674,8 @@ def slice_resolution(ctx):
     s, n = V('s'), V('nmax')
     rets = returns(fa)
     isl = T.call(G('isinstance'), (s, G('slice')))
-    sl = [r for r in rets if (isl, True) in r.guards]
-    sc = [r for r in rets if (isl, False) in r.guards]
+    sl = [r for r in rets if r.under(isl)]
+    sc = [r for r in rets if r.under(isl, False)]
     if len(sl) != 1 or len(sc) != 1:
         ctx.unrec(R, 'shape', ctx.where(fa), found=(len(sl), len(sc)), reason='expected one return for slices and one for scalars')
         return
@@ -706,7 +706,7 @@ def slice_resolution(ctx):
                     reason='None -> 0 / nmax; negative -> nmax + bound; otherwise the bound itself',
                     key=f'C03.d-slice|_process_slice|slice-resolution|{T.show(v)}')
     # step other than 1/None refused
-    rs = [e for e in events(fa, 'raise') if (isl, True) in e.guards]
+    rs = [e for e in events(fa, 'raise') if e.under(isl)]
     ok = any(any(c == T.cmp('not in', T.attr(s, 'step'), T.tup([C(1), T.NONE])) and p for c, p in e.guards) for e in rs)
     ctx.check(ok, R, 'slice.step', ctx.where(fa), found=[T.show(e.exc) for e in rs], expected='raise when step not in (1, None)')
     # scalar
@@ -714,8 +714,8 @@ def slice_resolution(ctx):
     want = T.tup([T.call(G('int'), (sv,)), T.call(G('int'), (T.add(sv, C(1)),))])
     ctx.eq(R, 'scalar.range', sc[0].value, want, ctx.where(fa, sc[0]), 'a scalar selects [s, s+1) (negative s counted from the end)')
     upper = T.cmp('>=', sv, n)
-    rsc = [e for e in events(fa, 'raise') if (isl, False) in e.guards]
-    ok = any((upper, True) in e.guards for e in rsc)
+    rsc = [e for e in events(fa, 'raise') if e.under(isl, False)]
+    ok = any(e.under(upper) for e in rsc)
     ctx.check(ok, R, 'scalar.upper-bound', ctx.where(fa), found=[[T.show(c) for c, p in e.guards] for e in rsc],
               expected='raise IndexError when the resolved index >= nmax')
     ok = any(e.exc[0] == 'call' and e.exc[1] == G('TypeError') for e in rsc)
